@@ -34,6 +34,14 @@ class Z3H:
 
     def trig(self, e):
         e = z3.simplify(e) if z3.is_expr(e) else self.real(e)
+        # sin is odd, cos is even: canonicalise the sign of the argument (the compiled code computes sin(-t) where the reference says -sin(t))
+        lead = e
+        while z3.is_add(lead):
+            lead = lead.arg(0)
+        neg = (z3.is_mul(lead) and z3.is_rational_value(lead.arg(0)) and lead.arg(0).as_fraction() < 0) or (z3.is_rational_value(lead) and lead.as_fraction() < 0)
+        if neg:
+            s, c = self.trig(-e)
+            return -s, c
         k = e.hash()
         for (ee, sc) in self._trig.get(k, []):
             if ee.eq(e):
@@ -68,6 +76,15 @@ class Z3H:
 
     def eq(self, a, b):
         return a == b
+
+    def atan2(self, y, x):
+        """t = atan2(y, x) as an uninterpreted symbol with its defining facts: with r = sqrt(x^2 + y^2) > 0, sin t = y / r and cos t = x / r;
+        y >= 0 => t >= 0 (analytic axioms, listed in the evidence)"""
+        t = self.uf("atan2", y, x)
+        r = self.sqrt(x * x + y * y)
+        s, c = self.trig(t)
+        self.side += [z3.Implies(r > 0, z3.And(s * r == y, c * r == x)), z3.Implies(y >= 0, t >= 0), z3.Implies(y <= 0, t <= 0)]
+        return t
 
 
 class NumH:
@@ -163,6 +180,8 @@ class REnc:
             elif name == "tan":
                 s, c = h.trig(args[0])
                 r = h.div(s, c)
+            elif name == "atan2":
+                r = h.atan2(args[0], args[1])
             else:
                 r = h.uf(name, *args)
         elif k == "frem":
